@@ -56,6 +56,18 @@ def pdecEngine (args : List String) : String :=
         | some (some (v, d')) => s!"ok {v} {d'}"
       else "bad-op"
     | _ => "bad-op"
+  | ["pythc", pr, cf, e, t, q] =>
+    match allNat [cf, t, q], allInt [pr, e] with
+    | some [cf, t, q], some [pr, e] =>
+      if -(2 ^ 63) ≤ pr ∧ pr < 2 ^ 63 ∧ cf < 2 ^ 64 ∧ -(2 ^ 31) ≤ e ∧ e < 2 ^ 31 ∧ t < 256 ∧ q < 256 then
+        match pythWithConfidence pr cf e t q with
+        | .ok (mn, mx) => s!"ok {mn.value} {mn.mult} {mx.value} {mx.mult}"
+        | .error .midPrice => "err MidPrice"
+        | .error .minPrice => "err MinPrice"
+        | .error .maxPrice => "err MaxPrice"
+        | .error (.value v) => showPyth (.error v)
+      else "bad-op"
+    | _, _ => "bad-op"
   | ["pyth", v, e, t, q] =>
     match allNat [v, t, q], pInt e with
     | some [v, t, q], some e =>
